@@ -49,6 +49,9 @@ def judge(exp, out):
         return True, ''
     if exp is ERR or exp == ERR:
         return (True, '') if isinstance(v, Err) else (False, 'value-should-be-error')
+    if isinstance(exp, tuple) and len(exp) == 2 and exp[0] == 'PRED':
+        ok, why = PREDICATES[exp[1][0]](v, *exp[1][1:])
+        return ok, why
     if isinstance(v, Err):
         if exp is ANYVAL or exp == ANYVAL:
             return False, 'error-should-be-value'
